@@ -126,9 +126,11 @@ def run(ctx):
                 cases.append(dict(c, id=c["id"] + "-omitted", b=[0]))
     for c in cases:
         c.pop("brev", None)
+    if not ctx.replay:
+        rng.shuffle(cases)              # spreads the few expensive rows (deeply nested values) over the shards of the oracle
     rows = run_lab(ctx, lab, cases)
     ctx.evals = len(rows)
-    bad, _ = vlib.validate_trace(ctx, "C01Trace", rows, canary=canary, shard=400, timeout=3000)
+    bad, _ = vlib.validate_trace(ctx, "C01Trace", rows, canary=canary, shard=100, timeout=3000)
     for row, why in bad:
         vlib.report_failure(ctx, row, {"failed": why, "id": row.get("id"), "tn": row.get("tn")}, case=row["case"])
     ctx.cov["distinct_nontrivial"] = vlib.distinct_count(rows, lambda r: (r["tn"], r["case"].get("b"), r["case"].get("mut")))
